@@ -54,6 +54,9 @@ fn main() {
             all.extend(cells::state_ops_after::<Q16E1>(t));
             all.extend(cells::state_ops_after::<Q32E2>(t));
             if want == "C04" {
+                all.extend(cells::order_independence::<Q8E0>(t));
+                all.extend(cells::order_independence::<Q16E1>(t));
+                all.extend(cells::order_independence::<Q32E2>(t));
                 all.extend(cells::spellings::<Q8E0>(t));
                 all.extend(cells::spellings::<Q16E1>(t));
                 all.extend(cells::spellings::<Q32E2>(t));
